@@ -48,6 +48,14 @@ func init() {
 				return 150_000
 			}, Run: c20Converter,
 				Min: map[string]int64{"strings": 100000, "with_opacity": 20000, "opacity_register_reused": 5000, "circles": 20000, "circle_only_paths": 1000, "offsets_nonzero": 20000, "icons_with_six_distinct_opacities": 2000, "zero_radius_circles": 3000, "explicit_opacity_of_one": 5000}},
+			{Name: "file", N: func(t string) uint64 {
+				if t == "thorough" {
+					return 3_000_000
+				}
+				return 40_000
+			}, Run: c20File,
+				Rule: "a PRNG SVG document (0..6 paths in the converter dialect with fill and opacity attributes, 0..3 circles anywhere in the document, a viewBox origin that may lie elsewhere) written to a scratch file and converted by mdicons.ParseFile; the byte-slice literal it writes is read back and compared with the composition of its paths and circles; non-trivial = at least 2 elements",
+				Min:  map[string]int64{"files": 30000, "paths": 40000, "circles": 20000, "files_with_circles_only": 2000, "table_paths_with_another_fill": 2000, "table_paths_with_matching_fill": 2000, "circles_after_a_first_path_from_the_table": 300, "icons_sharing_opacity_registers": 5000, "files_with_viewbox_origin_elsewhere": 3000}},
 			{Name: "concat", N: func(t string) uint64 {
 				if t == "thorough" {
 					return 8_000_000
